@@ -39,6 +39,7 @@ def block(fn, ctx, clo, caps, k, spec, intrinsic, hints_last="", plain=False, ex
 //@closure 1 extra
     open spec fn hist(&self) -> Seq<Call<T, U>> {{ self.h@ }}
     open spec fn elem_ok(v: T) -> bool {{ {elem} }}
+    open spec fn cap_len() -> nat {{ 0x7fff_ffff }}
 //@closure 1 inv
         &&& hist_wf(self.h@) && canon_seq(adds(self.h@)){" && all_some(vals(adds(self.h@)))" if plain else ""}
         &&& sums_ok(vals(win(self.h@)), self.n, {", ".join(args)}, {k})         // #C01 state_describes_window
@@ -51,7 +52,8 @@ def block(fn, ctx, clo, caps, k, spec, intrinsic, hints_last="", plain=False, ex
             broadcast use a_real, a_real_cmp;
             ax_lits();
             reveal_with_fuel(rpow, 4);
-            lemma_step_vals(self.h@, v_rm, v);{extra_first}
+            lemma_step_vals(self.h@, v_rm, v);
+            lemma_small_products(self.n as int); lemma_small_products(self.n as int + 1);{extra_first}
         }}
 //@at closure 1 last
         proof {{
@@ -90,11 +92,31 @@ STD_HINT = '''
                 lemma_var_forms(ps(wp, 1), ps(wp, 2), cnt(wp) as real);
                 if biased_var(wp) > 0real { lemma_scaled_pos(biased_var(wp), cnt(wp) as real); }
             }'''
+SKEW_HINT = '''
+            if cnt(wp) >= 3 && biased_var(wp) > rv(EPS) {
+                let vv = biased_var(wp);
+                ax_rsqrt(vv);
+                let s = rsqrt(vv);
+                assert(s > 0real) by(nonlinear_arith) requires s >= 0real, s * s == vv, vv > 0real;
+                lemma_skew_core(em(wp, 3), em(wp, 1), s, em(wp, 2));
+                ax_rsqrt((cnt(wp) * (cnt(wp) - 1)) as real);
+            }'''
+KURT_HINT = '''
+            if cnt(wp) >= 4 && biased_var(wp) > rv(EPS) {
+                lemma_kurt_core(em(wp, 4), em(wp, 3), em(wp, 1), biased_var(wp), em(wp, 2));
+                reveal_with_fuel(ipow, 3);
+            }'''
 VALID = "pub trait RollingValidFeature"
 PLAIN = "pub trait RollingFeature"
 which = sys.argv[1]
 out = []
-if which == "valid":
+if which == "valid2":
+    out.append(block("ts_vskew_to", VALID, "CloVskew", "mut n: usize, mut sum: f64, mut sum2: f64, mut sum3: f64, min_periods: usize", 3, "skew_spec", 3, SKEW_HINT, extra_first=SKEW_HINT))
+    out.append(block("ts_vkurt_to", VALID, "CloVkurt", "mut n: usize, mut sum: f64, mut sum2: f64, mut sum3: f64, mut sum4: f64, min_periods: usize", 4, "kurt_spec", 4, KURT_HINT, extra_first=KURT_HINT))
+elif which == "plain2":
+    out.append(block("ts_skew_to", PLAIN, "CloSkew", "mut n: usize, mut sum: f64, mut sum2: f64, mut sum3: f64, min_periods: usize", 3, "skew_spec", 3, SKEW_HINT, plain=True, extra_first=SKEW_HINT))
+    out.append(block("ts_kurt_to", PLAIN, "CloKurt", "mut n: usize, mut sum: f64, mut sum2: f64, mut sum3: f64, mut sum4: f64, min_periods: usize", 4, "kurt_spec", 4, KURT_HINT, plain=True, extra_first=KURT_HINT))
+elif which == "valid":
     out.append(block("ts_vmean_to", VALID, "CloVmean", "mut n: usize, mut sum: f64, min_periods: usize", 1, "mean_spec", 0))
     out.append(block("ts_vvar_to", VALID, "CloVvar", "mut n: usize, mut sum: f64, mut sum2: f64, min_periods: usize", 2, "var_spec", 2, VAR_HINT))
     out.append(block("ts_vstd_to", VALID, "CloVstd", "mut n: usize, mut sum: f64, mut sum2: f64, min_periods: usize", 2, "std_spec", 2, STD_HINT))
